@@ -153,8 +153,10 @@ static int cmp_common(const void *a, const void *b, void *p, int dir)
     sgn = dir * ((x->key > y->key) - (x->key < y->key));
     /* only the sign of the result is specified: scale 7 stands for "magnitude unrelated to the
      * distance between the priorities" (as with strcmp-like or multi-key comparators) */
-    if (C->cmpscale == 7)
+    if (C->cmpscale == 7) {
+        if ((x->id + y->id) % 3 == 0) return vrt_cmp_result(sgn, (unsigned)(x->id * 131 + y->id * 31));
         return sgn * (1 + (x->id * 131 + y->id * 31) % 997);
+    }
     return sgn * C->cmpscale;
 }
 static int cmp_fwd(const void *a, const void *b, void *p) { return cmp_common(a, b, p, +1); }
